@@ -14,14 +14,14 @@ def hist_lines(path, h):
     return out
 
 
-def run(res, prefix, restarts=False):
+def run(res, prefix, restarts=False, cfgchanges=False):
     drv = core.build_driver(res)
     if not drv:
         return None
     out = os.path.join(core.WORK, f"ta_{res.pid}.txt")
     n = {"quick": "120", "thorough": "4000"}[res.tier]
     rc, log = core.go_test(res, "./pkg/resmgr/", "TestVerifTAHistories", out,
-                           env_extra={"VERIF_HISTORIES": os.environ.get("VERIF_HISTORIES", n), "VERIF_RESTARTS": "1" if restarts else "0"}, timeout=9000)
+                           env_extra={"VERIF_HISTORIES": os.environ.get("VERIF_HISTORIES", n), "VERIF_RESTARTS": "1" if restarts else "0", "VERIF_CFGCHANGES": "1" if cfgchanges else "0"}, timeout=9000)
     if rc != 0 or not os.path.exists(out) or os.path.getsize(out) == 0:
         res.broken.append(("resmgr/topology-aware harness", log[-3000:]))
         return None
